@@ -186,6 +186,19 @@ func (ra *roAnalysis) flagMayWrite(f *ssa.Function, site ssa.Instruction, v ssa.
 			if len(pred.Instrs) > 0 && ra.locallyGuarded(f, pred.Instrs[0]) {
 				continue
 			}
+			// or the edge itself is the ReadOnly == false edge of the predecessor's branch
+			if iff, ok := pred.Instrs[len(pred.Instrs)-1].(*ssa.If); ok {
+				edgeOK := false
+				for si, succ := range pred.Succs {
+					if succ == x.Block() && flagEdge(ra.fRO, false)(pred, succ, iff.Cond, si == 0) {
+						edgeOK = true
+					}
+				}
+				// both successors may be the φ block only in degenerate code; require the other one not to be
+				if edgeOK && !(pred.Succs[0] == x.Block() && pred.Succs[1] == x.Block()) {
+					continue
+				}
+			}
 			return false, b + " on an edge that is not guarded by ReadOnly == false"
 		}
 		return false, ""
